@@ -32,6 +32,7 @@ RUN_ENV = {
 }
 
 MINIVEC = core.VERIF / "harness" / "minivec.hpp"
+FIXEDVEC = core.VERIF / "harness" / "fixedvec.hpp"  # capacity from the {MAX_SIZE} placeholder of the container template
 # stand-in for the CETL headers named by the cetl++14-17 shorthand (the library itself is not available offline)
 STANDIN = core.VERIF / "harness" / "standin"
 ALLOC_STDS = ("cetl++14-17",)  # flavours whose allocator is not default constructible
@@ -183,6 +184,13 @@ class Lab:
                     f'    variable_array_type_include: "\\"{MINIVEC}\\""\n'
                     '    variable_array_type_template: "vf::minivec<{TYPE}>"\n'
                 )
+            if o.get("container") == "fixedvec":
+                cfg = self.dir / "fixedvec.yaml"
+                cfg.write_text(
+                    "nunavut.lang.cpp:\n  options:\n"
+                    f'    variable_array_type_include: "\\"{FIXEDVEC}\\""\n'
+                    '    variable_array_type_template: "vf::fixedvec<{TYPE}, {MAX_SIZE}>"\n'
+                )
         for i, r in enumerate(self.roots):
             argv = list(argv_common)
             for j in range(i):
@@ -246,7 +254,7 @@ class Lab:
             if o["std"] in ALLOC_STDS:
                 src.write_text(emit_cpp.CppEmitter(self.ctypes, self.top, alloc=True, skip=skip).emit(self.codec_header_paths(".hpp", skip), CETL_OVERLOADS))
             else:
-                src.write_text(emit_cpp.CppEmitter(self.ctypes, self.top, skip=skip).emit(self.codec_header_paths(".hpp", skip) if skip else self.header_paths(".hpp"), MINIVEC_OVERLOADS if o.get("container") == "minivec" else ""))
+                src.write_text(emit_cpp.CppEmitter(self.ctypes, self.top, skip=skip).emit(self.codec_header_paths(".hpp", skip) if skip else self.header_paths(".hpp"), MINIVEC_OVERLOADS if o.get("container") == "minivec" else FIXEDVEC_OVERLOADS if o.get("container") == "fixedvec" else ""))
             exe = self.dir / f"h_{tag}"
             std = {"c++17-pmr": "c++17", "cetl++14-17": "c++14"}.get(o["std"], o["std"])
             cmd = [CLANGXX, f"-std={std}", *flags, "-Wall", "-Wno-unused-function", "-Wno-deprecated-declarations", "-I", str(gen), *(["-isystem", str(STANDIN)] if o["std"] in ALLOC_STDS else []), str(src), "-o", str(exe)]
@@ -338,6 +346,7 @@ def py_schema(t) -> dict:
 
 
 CETL_OVERLOADS = r"""
+#include "cetl/variable_length_array.hpp"  // universes without a variable-length array do not pull it in themselves
 template <class T, class A> typename std::enable_if<!vf_has_allocator_type<T>::value>::type vf_append(cetl::VariableLengthArray<T, A>& v) { v.emplace_back(); }
 template <class T, class A> typename std::enable_if<vf_has_allocator_type<T>::value>::type vf_append(cetl::VariableLengthArray<T, A>& v) { v.emplace_back(typename T::allocator_type(v.get_allocator())); }
 template <class T, class A> void load(In& in, cetl::VariableLengthArray<T, A>& v) { std::size_t n = static_cast<std::size_t>(in.next()); v.clear(); if (n > v.max_size()) { std::fprintf(stderr, "ERROR: vf: the container as built by the generated constructor refuses a count within the DSDL capacity (max_size=%zu count=%zu)\n", v.max_size(), n); std::abort(); } for (std::size_t i = 0; i < n; i++) { vf_append(v); load(in, v.back()); } }
@@ -351,6 +360,14 @@ template <class T> void load(In& in, vf::minivec<T>& v) { std::size_t n = static
 template <class T> void dump(Out& o, const vf::minivec<T>& v) { o.put(v.size()); for (std::size_t i = 0; i < v.size(); i++) dump(o, v[i]); }
 inline void load(In& in, vf::minivec<bool>& v) { std::size_t n = static_cast<std::size_t>(in.next()); v.clear(); for (std::size_t i = 0; i < n; i++) v.push_back(in.next() != 0); }
 inline void dump(Out& o, const vf::minivec<bool>& v) { o.put(v.size()); for (std::size_t i = 0; i < v.size(); i++) o.put(v[i] ? 1U : 0U); }
+"""
+
+
+FIXEDVEC_OVERLOADS = f'#include "{FIXEDVEC}"\n' + r"""
+template <class T, std::size_t N> void load(In& in, vf::fixedvec<T, N>& v) { std::size_t n = static_cast<std::size_t>(in.next()); v.clear(); for (std::size_t i = 0; i < n; i++) { v.emplace_back(); load(in, v.back()); } }
+template <class T, std::size_t N> void dump(Out& o, const vf::fixedvec<T, N>& v) { o.put(v.size()); for (std::size_t i = 0; i < v.size(); i++) dump(o, v[i]); }
+template <std::size_t N> void load(In& in, vf::fixedvec<bool, N>& v) { std::size_t n = static_cast<std::size_t>(in.next()); v.clear(); for (std::size_t i = 0; i < n; i++) v.push_back(in.next() != 0); }
+template <std::size_t N> void dump(Out& o, const vf::fixedvec<bool, N>& v) { o.put(v.size()); for (std::size_t i = 0; i < v.size(); i++) o.put(v[i] ? 1U : 0U); }
 """
 
 
